@@ -174,7 +174,11 @@ func main() {
 				}
 			case "small-tree":
 				if req.StartIndex >= 0 {
-					size = uint64(r.Int63n(req.StartIndex + 1))
+					if req.StartIndex == math.MaxInt64 {
+						size = uint64(r.Int63())
+					} else {
+						size = uint64(r.Int63n(req.StartIndex + 1))
+					}
 				}
 				ls = nil
 			case "empty":
